@@ -3,5 +3,5 @@
 # from a clean ./check <id> run)
 cd /verif
 for p in $(python3 -c "import json;print(' '.join(c['property_id'] for c in json.load(open('MANIFEST.json'))['checks']))") "$@"; do
-  ./check $p --no-evidence --tier ${TIER:-quick} 2>&1 | grep -v "^WARNING" | grep -E "^(VIOLATION|UNDECIDED|KNOWN|C[0-9]+:)" | cut -c1-220
+  ./check $p --no-evidence --tier ${TIER:-quick} 2>&1 | grep -v "^WARNING" | grep -E "^(VIOLATION|UNDECIDED|KNOWN|selftest|C[0-9]+:)" | cut -c1-220
 done
